@@ -1336,7 +1336,7 @@ impl System {
             }
         }
         for (i, c) in self.clients.iter().enumerate() {
-            if c.pending.is_none() && !c.streaming && (c.next as usize) < self.sc.clients[i].len() {
+            if c.pending.is_none() && !c.streaming && (c.next as usize) < self.sc.clients.get(i).map(|s| s.len()).unwrap_or(0) {
                 evs.push(Ev::Client(i as u8));
             }
         }
